@@ -202,12 +202,33 @@ Fixpoint parse_blocks (fuel : nat) (b : bytes) : outcome (list (Z * Z)) :=
 Definition sec_default (size3 stype ext hlen order : Z) : sechdr :=
   mkSec size3 stype ext hlen None [] 0 [] None order.
 
-(* depth-fuelled mutual recursion: sections <-> files <-> volumes *)
-Fixpoint parse_section (d : nat) (pol : Z) (buf : bytes) (order : Z) {struct d}
-  : outcome (node * Z) :=
-  match d with
-  | O => Fuel
-  | S d' =>
+(* ---- one level of each parser, with the recursive calls abstracted ([rec_*] are the parsers at
+   the next smaller depth).  The depth-fuelled mutual Fixpoint below just ties the knot, so that
+   [parse_section (S d) = section_body (parse_section d) (parse_fv d)] holds by reflexivity. ---- *)
+Section Bodies.
+Variable rec_section : Z -> bytes -> Z -> outcome (node * Z).
+Variable rec_file : Z -> bytes -> outcome (option node * Z).
+Variable rec_fv : Z -> bytes -> Z -> bool -> outcome (node * Z).
+
+Definition sec_ext (s : node) : Z := match s with NSec h _ _ => s_ext h | _ => 0 end.
+Definition file_ext (f : node) : Z := match f with NFile h _ _ => f_ext h | _ => 0 end.
+
+(* the loop over the sections of a buffer [b] (a file from its data offset on, or a decompressed
+   payload): sections at 4-aligned offsets until the end of [b]; [n] is local fuel *)
+Fixpoint sections_loop (n : nat) (b : bytes) (pol : Z) (offset i : Z) : outcome (list node * Z) :=
+  match n with
+  | O => Panic 902
+  | S n' =>
+    if offset <? zlen b then
+      do sp <- rec_section pol (zskipn offset b) i;
+      let '(s, pol') := sp in
+      if sec_ext s =? 0 then Err E_ZEROLEN else
+      do rp <- sections_loop n' b pol' (align4 (offset + sec_ext s)) (i + 1);
+      let '(r, pol'') := rp in Ok (s :: r, pol'')
+    else Ok ([], pol)
+  end.
+
+Definition section_body (pol : Z) (buf : bytes) (order : Z) : outcome (node * Z) :=
     if zlen buf <? 4 then Err E_SHORT else
     let size3 := rd 0 3 buf in
     let stype := rd 3 1 buf in
@@ -242,7 +263,7 @@ Fixpoint parse_section (d : nat) (pol : Z) (buf : bytes) (order : Z) {struct d}
              end
            end);
       let '(encap, kind') := ek in
-      do kp <- parse_encap d' (Z.to_nat (zlen encap) + 1) pol encap 0 0;
+      do kp <- sections_loop (Z.to_nat (zlen encap) + 1) encap pol 0 0;
       let '(kids, pol') := kp in
       Ok (NSec (mkSec size3 stype ext hlen (Some (mkGd g doff attrs kind')) [] 0 [] None order)
                sbuf kids, pol')
@@ -255,7 +276,7 @@ Fixpoint parse_section (d : nat) (pol : Z) (buf : bytes) (order : Z) {struct d}
                sbuf [], pol)
     else if stype =? 23 then
       if zlen sbuf <=? hlen then Err E_OVERSIZEHDR else
-      do vp <- parse_fv d' pol (zskipn hlen sbuf) 0 true;
+      do vp <- rec_fv pol (zskipn hlen sbuf) 0 true;
       let '(v, pol') := vp in
       Ok (NSec h0 sbuf [v], pol')
     else if (stype =? 19) || (stype =? 27) || (stype =? 28) then
@@ -264,34 +285,9 @@ Fixpoint parse_section (d : nat) (pol : Z) (buf : bytes) (order : Z) {struct d}
       Ok (NSec (mkSec size3 stype ext hlen None [] 0 []
                       (match parse_depex (length body + 1) body with Some l => Some l | None => Some [] end)
                       order) sbuf [], pol)
-    else Ok (NSec h0 sbuf [], pol)
-  end
+    else Ok (NSec h0 sbuf [], pol).
 
-(* the loop over a decompressed payload; [n] is local fuel *)
-with parse_encap (d : nat) (n : nat) (pol : Z) (eb : bytes) (offset : Z) (i : Z) {struct d}
-  : outcome (list node * Z) :=
-  match d with
-  | O => Fuel
-  | S d' =>
-    (fix loop (n : nat) (pol : Z) (offset i : Z) : outcome (list node * Z) :=
-       match n with
-       | O => Panic 902
-       | S n' =>
-         if offset <? zlen eb then
-           do sp <- parse_section d' pol (zskipn offset eb) i;
-           let '(s, pol') := sp in
-           let ext := match s with NSec h _ _ => s_ext h | _ => 0 end in
-           if ext =? 0 then Err E_ZEROLEN else
-           do rp <- loop n' pol' (align4 (offset + ext)) (i + 1);
-           let '(r, pol'') := rp in Ok (s :: r, pol'')
-         else Ok ([], pol)
-       end) n pol offset i
-  end
-
-with parse_file (d : nat) (pol : Z) (buf : bytes) {struct d} : outcome (option node * Z) :=
-  match d with
-  | O => Fuel
-  | S d' =>
+Definition file_body (pol : Z) (buf : bytes) : outcome (option node * Z) :=
     if zlen buf <? 24 then Err E_SHORT else
     let g := sub 0 16 buf in
     let ckh := rd 16 1 buf in let ckf := rd 17 1 buf in
@@ -314,29 +310,32 @@ with parse_file (d : nat) (pol : Z) (buf : bytes) {struct d} : outcome (option n
        else Ok None);
     let h := mkFile g ckh ckf ftype attr size3 state ext doff nv in
     if negb (supported_file ftype) then Ok (Some (NFile h fbuf []), pol) else
-    do kp <-
-      (fix loop (n : nat) (pol : Z) (offset i : Z) : outcome (list node * Z) :=
-         match n with
-         | O => Panic 903
-         | S n' =>
-           if offset <? ext then
-             do sp <- parse_section d' pol (zskipn offset fbuf) i;
-             let '(s, pol') := sp in
-             let se := match s with NSec sh _ _ => s_ext sh | _ => 0 end in
-             if se =? 0 then Err E_ZEROLEN else
-             do rp <- loop n' pol' (align4 (offset + se)) (i + 1);
-             let '(r, pol'') := rp in Ok (s :: r, pol'')
-           else Ok ([], pol)
-         end) (Z.to_nat ext + 1)%nat pol doff 0;
+    do kp <- sections_loop (Z.to_nat ext + 1) fbuf pol doff 0;
     let '(kids, pol') := kp in
-    Ok (Some (NFile h fbuf kids), pol')
-  end
+    Ok (Some (NFile h fbuf kids), pol').
 
-with parse_fv (d : nat) (pol : Z) (data : bytes) (fvoff : Z) (resizable : bool) {struct d}
-  : outcome (node * Z) :=
-  match d with
-  | O => Fuel
-  | S d' =>
+(* the file loop of a volume: files at 8-aligned offsets while a header still fits *)
+Fixpoint files_loop (n : nat) (data : bytes) (length : Z) (pol : Z) (offset : Z)
+  : outcome (list node * Z * Z) :=
+  match n with
+  | O => Panic 904
+  | S n' =>
+    if offset + 24 <=? length then
+      let offset := align8 offset in
+      if length <? offset + 24 then Ok ([], pol, 0) else
+      do fp <- rec_file pol (sub offset (length - offset) data);
+      let '(fo, pol') := fp in
+      match fo with
+      | None => Ok ([], pol', (length - offset) mod U64)
+      | Some f =>
+        if file_ext f =? 0 then Err E_ZEROLEN else
+        do rp <- files_loop n' data length pol' (offset + file_ext f);
+        let '(r, pol'', fs) := rp in Ok (f :: r, pol'', fs)
+      end
+    else Ok ([], pol, 0)
+  end.
+
+Definition fv_body (pol : Z) (data : bytes) (fvoff : Z) (resizable : bool) : outcome (node * Z) :=
     if zlen data <? 64 then Err E_SHORT else
     let zero := sub 0 16 data in let g := sub 16 16 data in
     let length := rd 32 8 data in let sig := rd 40 4 data in let attrs := rd 44 4 data in
@@ -357,29 +356,29 @@ with parse_fv (d : nat) (pol : Z) (data : bytes) (fvoff : Z) (resizable : bool) 
         NVol (mkVol zero g length sig attrs hdrlen cksum exthdroff reserved rev blocks extname extsize
                     doff fvoff resizable fs) fvbuf files in
       if negb (supported_fv g) then Ok (mk [] 0, pol1) else
-      do kp <-
-        (fix loop (n : nat) (pol : Z) (offset : Z) : outcome (list node * Z * Z) :=
-           match n with
-           | O => Panic 904
-           | S n' =>
-             if offset + 24 <=? length then
-               let offset := align8 offset in
-               if length <? offset + 24 then Ok ([], pol, 0) else
-               do fp <- parse_file d' pol (sub offset (length - offset) data);
-               let '(fo, pol') := fp in
-               match fo with
-               | None => Ok ([], pol', (length - offset) mod U64)
-               | Some f =>
-                 let fe := match f with NFile fh _ _ => f_ext fh | _ => 0 end in
-                 if fe =? 0 then Err E_ZEROLEN else
-                 do rp <- loop n' pol' (offset + fe);
-                 let '(r, pol'', fs) := rp in Ok (f :: r, pol'', fs)
-               end
-             else Ok ([], pol, 0)
-           end) (Z.to_nat (zlen data) + 1)%nat pol1 doff;
+      do kp <- files_loop (Z.to_nat (zlen data) + 1) data length pol1 doff;
       let '(files, pol2, fs) := kp in
       Ok (mk files fs, pol2)
-    end
+    end.
+
+End Bodies.
+
+(* depth-fuelled mutual recursion: sections <-> files <-> volumes *)
+Fixpoint parse_section (d : nat) (pol : Z) (buf : bytes) (order : Z) {struct d} : outcome (node * Z) :=
+  match d with
+  | O => Fuel
+  | S d' => section_body (parse_section d') (parse_fv d') pol buf order
+  end
+with parse_file (d : nat) (pol : Z) (buf : bytes) {struct d} : outcome (option node * Z) :=
+  match d with
+  | O => Fuel
+  | S d' => file_body (parse_section d') pol buf
+  end
+with parse_fv (d : nat) (pol : Z) (data : bytes) (fvoff : Z) (resizable : bool) {struct d}
+  : outcome (node * Z) :=
+  match d with
+  | O => Fuel
+  | S d' => fv_body (parse_file d') pol data fvoff resizable
   end.
 
 (* FindFirmwareVolumeOffset *)
@@ -575,20 +574,8 @@ Definition asm_vol (pol : Z) (ffs3 : bool) (h : volhdr) (buf : bytes) (files : l
 (* assemble state: erase polarity and the useFFS3 flag *)
 Definition ast := (Z * bool)%type.
 
-Fixpoint asm (n : node) (st : ast) {struct n} : outcome (node * ast) :=
-  let asm_list :=
-    fix asm_list (l : list node) (st : ast) : outcome (list node * ast) :=
-      match l with
-      | [] => Ok ([], st)
-      | x :: r =>
-        do xs <- asm x st; let '(x', st1) := xs in
-        do rs <- asm_list r st1; let '(r', st2) := rs in
-        Ok (x' :: r', st2)
-      end in
-  match n with
-  | NPad off b => Ok (NPad off b, st)
-  | NSec h buf kids =>
-    do ks <- asm_list kids st; let '(kids', st1) := ks in
+(* what Assemble.Visit does to a node once its children have been assembled *)
+Definition sec_asm (h : sechdr) (buf : bytes) (kids' : list node) (st1 : ast) : outcome (node * ast) :=
     let '(pol, ffs3) := st1 in
     match kids' with
     | [] =>
@@ -623,9 +610,9 @@ Fixpoint asm (n : node) (st : ast) {struct n} : outcome (node * ast) :=
          else Ok data);
       let '(h', nb) := gen_sec_header h body in
       Ok (NSec h' nb kids', (pol, ffs3 || (16777215 <? s_ext h')))
-    end
-  | NFile h buf kids =>
-    do ks <- asm_list kids st; let '(kids', st1) := ks in
+    end.
+
+Definition file_asm (h : filehdr) (buf : bytes) (kids' : list node) (st1 : ast) : outcome (node * ast) :=
     let '(pol, ffs3) := st1 in
     match kids', f_nvar h with
     | [], None => Ok (NFile h buf [], st1)
@@ -636,16 +623,35 @@ Fixpoint asm (n : node) (st : ast) {struct n} : outcome (node * ast) :=
       let '(ext, attr) := set_size (f_attr h) (24 + zlen data) true in
       let '(h', nb) := checksum_and_assemble h ext attr data in
       Ok (NFile h' nb kids', (pol, ffs3 || (16777215 <? ext)))
-    end
+    end.
+
+Definition vol_asm (h : volhdr) (buf : bytes) (kids' : list node) (st1 : ast) : outcome (node * ast) :=
+    let '(pol, ffs3) := st1 in
+    do hb <- asm_vol pol ffs3 h buf kids';
+    let '(h', nb) := hb in
+    Ok (NVol h' nb kids', (pol, match kids' with [] => ffs3 | _ => false end)).
+
+Fixpoint asm (n : node) (st : ast) {struct n} : outcome (node * ast) :=
+  let asm_list :=
+    fix asm_list (l : list node) (st : ast) : outcome (list node * ast) :=
+      match l with
+      | [] => Ok ([], st)
+      | x :: r =>
+        do xs <- asm x st; let '(x', st1) := xs in
+        do rs <- asm_list r st1; let '(r', st2) := rs in
+        Ok (x' :: r', st2)
+      end in
+  match n with
+  | NPad off b => Ok (NPad off b, st)
+  | NSec h buf kids =>
+    do ks <- asm_list kids st; let '(kids', st1) := ks in sec_asm h buf kids' st1
+  | NFile h buf kids =>
+    do ks <- asm_list kids st; let '(kids', st1) := ks in file_asm h buf kids' st1
   | NVol h buf kids =>
     match set_polarity (fst st) (fv_polarity (v_attrs h)) with
     | None => Err E_POLARITY
     | Some pol0 =>
-      do ks <- asm_list kids (pol0, snd st); let '(kids', st1) := ks in
-      let '(pol, ffs3) := st1 in
-      do hb <- asm_vol pol ffs3 h buf kids';
-      let '(h', nb) := hb in
-      Ok (NVol h' nb kids', (pol, match kids' with [] => ffs3 | _ => false end))
+      do ks <- asm_list kids (pol0, snd st); let '(kids', st1) := ks in vol_asm h buf kids' st1
     end
   end.
 
